@@ -224,12 +224,10 @@ def case_term(codes, case, obs):
         elif k == "jschanges":             # the JS binding GetDatasetChanges: always latest-only
             k = "changes"
             op = dict(op, latest=True, reader=("js:" + op["reader"]) if op.get("reader") else None)
-        if k == "batch" and op.get("reject"):
-            # a batch the store must refuse as a whole (nil reference in its last entity): no write in the model;
-            # accepted without an error = an observation no model and no spec explains
-            if not oo.get("err"):
-                terms.append("SChanges %d 0 0 false [] (-7)" % ds_code(case, op["ds"]))
-                terms.append("SEntities %d [] [[]]" % ds_code(case, op["ds"]))
+        if k == "batch" and op.get("reject") and oo.get("err"):
+            # a batch the store refuses as a whole (nil reference in its last entity): no write in the model.  When the
+            # store ACCEPTS it instead, it is an accepted write like any other: every entity of it must then be there
+            pass
         elif k == "batch":
             lens = oo.get("lens") or [0] * len(op["ents"])
             ents = vlib.coq_list([ent_term(codes, e, l) for e, l in zip(op["ents"], lens)])
@@ -307,12 +305,10 @@ def case_term(codes, case, obs):
             # POST through the HTTP handler: StoreEntities is called once per 10 entities (and once for the rest)
             lens = (list(oo.get("lens") or []) + [0] * len(op["ents"]))[:len(op["ents"])]
             upto = len(op["ents"])
-            if op.get("reject"):
-                # an id-less entity ends the request: the batches of 10 before it are stored, the last partial batch is refused
+            if op.get("reject") and oo.get("err"):
+                # an id-less entity ends the request: the batches of 10 before it are stored, the last partial batch is refused.
+                # A request answered 200 instead is an accepted write: all of its entities must then be there
                 upto = (len(op["ents"]) // 10) * 10
-                if not oo.get("err"):
-                    terms.append("SChanges %d 0 0 false [] (-7)" % ds_code(case, op["ds"]))
-                    terms.append("SEntities %d [] [[]]" % ds_code(case, op["ds"]))
             for c0 in range(0, upto, 10):
                 chunk = vlib.coq_list([ent_term(codes, e, l) for e, l in zip(op["ents"][c0:c0 + 10], lens[c0:c0 + 10])])
                 terms.append("SWrite (WBatch %d %s) (-1)" % (ds_code(case, op["ds"]), chunk))
